@@ -220,6 +220,22 @@ func globalsDigest() string {
 
 // ---------------------------------------------------------------- output helpers
 
+// retained results: in -purity mode the objects returned by a call are kept and
+// re-serialised after the whole history (a later call must not change an earlier result)
+var retainMu sync.Mutex
+var retainCur []func() string
+
+func keep(f func() string) string {
+	retainMu.Lock()
+	retainCur = append(retainCur, f)
+	retainMu.Unlock()
+	return f()
+}
+func kB(b []byte) string        { return keep(func() string { return xB(b) }) }
+func kI(v *big.Int) string      { return keep(func() string { return bI(v) }) }
+func kL(l []*big.Int) string    { return keep(func() string { return lI(l) }) }
+func kP(p *babyjub.Point) string { return keep(func() string { return pt(p) }) }
+
 func bI(v *big.Int) string {
 	if v == nil {
 		return "NIL"
@@ -326,9 +342,9 @@ func dispatch(op string, a []val) string {
 	// ---- babyjub
 	case "padd":
 		p1, p2 := mkPoint(a[0].i, a[1].i), mkPoint(a[2].i, a[3].i)
-		return pt(babyjub.NewPointProjective().Add(p1.Projective(), p2.Projective()).Affine())
+		return kP(babyjub.NewPointProjective().Add(p1.Projective(), p2.Projective()).Affine())
 	case "mul":
-		return pt(babyjub.NewPoint().Mul(a[0].i, mkPoint(a[1].i, a[2].i)))
+		return kP(babyjub.NewPoint().Mul(a[0].i, mkPoint(a[1].i, a[2].i)))
 	case "mulrecv": // receiver and returned value
 		p := babyjub.NewPoint()
 		r := p.Mul(a[0].i, mkPoint(a[1].i, a[2].i))
@@ -385,12 +401,21 @@ func dispatch(op string, a []val) string {
 	// ---- eddsa
 	case "sk2int":
 		k := babyjub.PrivateKey(arr32(a[0].b))
-		return bI(babyjub.SkToBigInt(&k))
+		return kI(babyjub.SkToBigInt(&k))
 	case "public":
 		k := babyjub.PrivateKey(arr32(a[0].b))
-		return pt(k.Public().Point())
+		return kP(k.Public().Point())
 	case "scalarpublic":
 		return pt(babyjub.NewPrivKeyScalar(a[0].i).Public().Point())
+	case "scalarseq": // one PrivKeyScalar object used for several derivations in sequence
+		k := babyjub.PrivateKey(arr32(a[0].b))
+		sc := k.Scalar()
+		b0 := bI(sc.BigInt())
+		p1 := pt(sc.Public().Point())
+		b1 := bI(sc.BigInt())
+		p2 := pt(sc.Public().Point())
+		b2 := bI(babyjub.SkToBigInt(&k))
+		return b0 + " " + p1 + " " + b1 + " " + p2 + " " + b2
 	case "pubroutes":
 		k := babyjub.PrivateKey(arr32(a[0].b))
 		return pt(k.Public().Point()) + " " + pt(k.Scalar().Public().Point()) + " " +
@@ -407,7 +432,7 @@ func dispatch(op string, a []val) string {
 		if err != nil {
 			return "ERR"
 		}
-		return pt(sig.R8) + " " + bI(sig.S)
+		return kP(sig.R8) + " " + kI(sig.S)
 	case "verifyp", "verifym":
 		pk := babyjub.PublicKey(*mkPoint(a[0].i, a[1].i))
 		sig := &babyjub.Signature{R8: mkPoint(a[3].i, a[4].i), S: a[5].i}
@@ -550,13 +575,13 @@ func dispatch(op string, a []val) string {
 		if err != nil {
 			return "ERR"
 		}
-		return lI(r)
+		return kL(r)
 	case "poseidonh":
 		r, err := poseidon.Hash(a[0].l)
 		if err != nil {
 			return "ERR"
 		}
-		return bI(r)
+		return kI(r)
 	case "poseidonhs":
 		r, err := poseidon.HashWithState(a[1].l, a[0].i)
 		if err != nil {
@@ -584,9 +609,9 @@ func dispatch(op string, a []val) string {
 		}
 		return fmt.Sprintf("[%d,%d,%d,%d]", r[0], r[1], r[2], r[3])
 	case "mimc7":
-		return bI(mimc7.MIMC7Hash(a[0].i, a[1].i))
+		return kI(mimc7.MIMC7Hash(a[0].i, a[1].i))
 	case "mimc7g":
-		return bI(mimc7.MIMC7HashGeneric(a[0].i, a[1].i, int(a[2].i.Int64())))
+		return kI(mimc7.MIMC7HashGeneric(a[0].i, a[1].i, int(a[2].i.Int64())))
 	case "mimchash": // key|nil [arr]
 		var key *big.Int
 		if a[0].kind == 'i' {
@@ -596,7 +621,7 @@ func dispatch(op string, a []val) string {
 		if err != nil {
 			return "ERR"
 		}
-		return bI(r)
+		return kI(r)
 	case "mimchashg": // iv [arr] n
 		r, err := mimc7.HashGeneric(a[0].i, a[1].l, int(a[2].i.Int64()))
 		if err != nil {
@@ -618,7 +643,7 @@ func dispatch(op string, a []val) string {
 				data[i] = a[i].b
 			}
 		}
-		return xB(keccak256.Hash(data...))
+		return kB(keccak256.Hash(data...))
 	case "keccakarena": // arena [o1,l1,o2,l2,...]: slices of ONE backing array (spare capacity behind each)
 		arena := append([]byte(nil), a[0].b...)
 		var data [][]byte
@@ -634,7 +659,7 @@ func dispatch(op string, a []val) string {
 		d := babyjub.Blake512(arena[o : o+l])
 		return xB(d) + " " + xB(arena)
 	case "blake":
-		return xB(babyjub.Blake512(a[0].b))
+		return kB(babyjub.Blake512(a[0].b))
 	case "ff":
 		return ffOp(a[0].tok, a[1].tok, a[2:])
 	case "ffg":
@@ -1037,6 +1062,7 @@ func main() {
 	conc := flag.Int("conc", 0, "number of concurrent goroutines for the concurrent pass")
 	rounds := flag.Int("rounds", 1, "passes per goroutine in the concurrent pass")
 	noadx := flag.Bool("noadx", false, "switch the run-time ADX dispatch of ff off for the whole run")
+	outPath := flag.String("out", "", "write the result lines to this file instead of stdout")
 	flag.Parse()
 	if *noadx {
 		ff.VerifSetSupportAdx(false)
@@ -1061,13 +1087,42 @@ func main() {
 		}
 		cases = append(cases, c)
 	}
-	w := bufio.NewWriter(os.Stdout)
+	outF := os.Stdout
+	if *outPath != "" {
+		var err2 error
+		outF, err2 = os.Create(*outPath)
+		if err2 != nil {
+			fmt.Fprintln(os.Stderr, err2)
+			os.Exit(2)
+		}
+		defer outF.Close()
+	}
+	w := bufio.NewWriter(outF)
 	defer w.Flush()
 	outs := make([]string, len(cases))
 	flags := make([]string, len(cases))
+	retained := make([][]func() string, len(cases))
+	snapsOut := make([][]string, len(cases))
 	g0 := ""
 	if *purity {
 		g0 = globalsDigest()
+	}
+	var concFirst [][]string
+	if *conc > 0 {
+		concFirst = make([][]string, *conc)
+		var wg0 sync.WaitGroup
+		for g := 0; g < *conc; g++ {
+			concFirst[g] = make([]string, len(cases))
+			wg0.Add(1)
+			go func(g int) {
+				defer wg0.Done()
+				for k := range cases {
+					i := (k*(2*g+1) + g) % len(cases)
+					concFirst[g][i] = run(cases[i].op, cases[i].args)
+				}
+			}(g)
+		}
+		wg0.Wait()
 	}
 	for i, c := range cases {
 		var snaps []string
@@ -1076,8 +1131,14 @@ func main() {
 				snaps = append(snaps, a.snap())
 			}
 		}
+		retainCur = nil
 		outs[i] = run(c.op, c.args)
 		if *purity {
+			retained[i] = retainCur
+			snapsOut[i] = make([]string, len(retainCur))
+			for j, f := range retainCur {
+				snapsOut[i][j] = f()
+			}
 			for j, a := range c.args {
 				if a.snap() != snaps[j] {
 					flags[i] += fmt.Sprintf(" MUTATED:arg%d", j)
@@ -1090,6 +1151,14 @@ func main() {
 		}
 	}
 	if *purity {
+		for i := range cases {
+			for j, f := range retained[i] {
+				if f() != snapsOut[i][j] {
+					flags[i] += " RESULT-CHANGED"
+					break
+				}
+			}
+		}
 		for i, c := range cases {
 			if r := run(c.op, c.args); r != outs[i] {
 				flags[i] += " REPEAT-DIFF"
@@ -1103,6 +1172,16 @@ func main() {
 		var wg sync.WaitGroup
 		var mu sync.Mutex
 		diffs := 0
+		for g := range concFirst {
+			for i := range cases {
+				if concFirst[g][i] != "" && concFirst[g][i] != outs[i] {
+					if diffs < 20 {
+						fmt.Fprintf(w, "CONC-DIFF(first pass) line=%d goroutine=%d got=%s want=%s\n", i, g, concFirst[g][i], outs[i])
+					}
+					diffs++
+				}
+			}
+		}
 		for g := 0; g < *conc; g++ {
 			wg.Add(1)
 			go func(g int) {
